@@ -178,6 +178,23 @@ func init() {
 			}
 			return nil
 		}))
+		// every registered constructor id in front of small and of boundary words (also as the object inside
+		// rpc_result and as an interface field of a known object)
+		allIDs := make([]string, 0, len(registryTypes))
+		for id := range registryTypes {
+			allIDs = append(allIDs, id)
+		}
+		sort.Strings(allIDs)
+		for _, idhex := range allIDs {
+			var id uint32
+			fmt.Sscanf(idhex, "%x", &id)
+			inf := map[string]interface{}{"name": "registered id " + idhex}
+			tail := [][]byte{bytes.Repeat([]byte{0}, 48), bytes.Repeat(word(1), 12), bytes.Repeat(word(0x1cb5c415), 12)}
+			for ti, t := range tail {
+				run(fmt.Sprintf("every-id-tail%d", ti), append(word(id), t...), nil, inf)
+			}
+			run("every-id-in-rpc-result", append(append(append(word(0xf35c6d01), word(7)...), word(0)...), append(word(id), bytes.Repeat([]byte{0}, 32)...)...), nil, inf)
+		}
 		// vector results (decoded with hints): bare and inside rpc_result
 		cat := func(ws ...uint32) []byte {
 			var b bytes.Buffer
